@@ -31,7 +31,7 @@ pub fn def() -> CheckDef {
             real: super::REAL_COMPONENTS,
             stub: super::STUB_COMPONENTS,
         },
-        runs: |t| if t.thorough() { 4_000 } else { 64 },
+        runs: |t| if t.thorough() { 4_000 } else { 128 },
         run,
         execute,
         expected_probes: &[
@@ -80,8 +80,33 @@ fn generate(seed: u64, tier: Tier) -> Scenario {
             }
         }
         if leftover {
-            // a later complete backup, so that the delete is not refused for an open newest band
+            // the content of the killed backup's tree must not be stored again (that would
+            // complete the zero-length file): replace the whole tree, then a complete backup,
+            // so that the delete is not refused for an open newest band
+            let mut model = crate::tree::TreeModel::new(sc.root_meta);
+            for s in &sc.steps {
+                if let Step::Edit(es) = s {
+                    for e in es {
+                        model.apply(e);
+                    }
+                }
+            }
+            let mut es: Vec<crate::tree::EditOp> = model
+                .nodes
+                .keys()
+                .filter(|k| k.as_str() != "/" && k.matches('/').count() == 1)
+                .map(|k| crate::tree::EditOp::Remove { path: k.clone() })
+                .collect();
             let opts = crate::genr::draw_opts_small_blocks(&mut r);
+            let cfg = crate::genr::GenCfg::draw(&mut r, &opts, false);
+            let mut g = crate::genr::Gen::new(r.derive("after-leftover"));
+            g.next_cseed = 7_000_000;
+            g.clock = 7_000_000;
+            for e in &es {
+                model.apply(e);
+            }
+            es.extend(g.burst(&model, &cfg, 1 + r.usize(3)));
+            sc.steps.push(Step::Edit(es));
             sc.steps.push(Step::Backup { opts, plan: FaultPlan::none() });
         }
     }
